@@ -322,6 +322,42 @@ def run_call_order(acc, api):
         acc.count('call_order_models')
 
 
+def run_two_runs(acc, api):
+    """Directed history: a function bound by one execute_script call is called by a LATER call on the same globals with its own options
+    object - it logs to, counts against and reads the globals of the run that calls it."""
+    bare_script, lib, rt_err = api
+
+    def call(name, *args):
+        return {'function': {'name': name, 'args': list(args)}}
+    define = {'statements': [{'function': {'name': 'ff', 'args': ['x'], 'statements': [
+        {'expr': {'expr': call('systemLog', {'binary': {'op': '+', 'left': {'string': 'in ff '}, 'right': V('who')}})}},
+        {'expr': {'name': 'seen', 'expr': V('x')}}, {'expr': {'expr': call('systemGlobalSet', {'string': 'last'}, V('x'))}}, {'return': {'expr': {'binary': {'op': '+', 'left': V('x'), 'right': N(1)}}}}]}}]}
+    use = {'statements': [{'expr': {'name': 'who', 'expr': {'string': 'second run'}}}, {'expr': {'name': 'r1', 'expr': call('ff', N(1))}}, {'expr': {'name': 'r2', 'expr': call('ff', N(2))}},
+                          {'return': {'expr': call('arrayNew', V('r1'), V('r2'), V('last'))}}]}
+    for shared_globals in (True, False):
+        g1 = {'who': 'first run'}
+        logs1, logs2 = [], []
+        o1 = {'globals': g1, 'logFn': logs1.append, 'maxStatements': 100}
+        bare_script.execute_script(define, o1)
+        count1 = o1.get('statementCount')
+        g2 = g1 if shared_globals else dict(g1)
+        o2 = {'globals': g2, 'logFn': logs2.append, 'maxStatements': 100}
+        res = bare_script.execute_script(use, o2)
+        acc.case(('two-runs', shared_globals), True)
+        acc.count('two_run_histories')
+        problems = []
+        if res != [2, 3, 2]:
+            problems.append(f'result {res!r}')
+        if logs1 or logs2 != ['in ff second run', 'in ff second run']:
+            problems.append(f'log of the defining run {logs1!r}, log of the calling run {logs2!r}')
+        if o1.get('statementCount') != count1 or o2.get('statementCount') != 12:
+            problems.append(f'statement counts: defining run {count1} -> {o1.get("statementCount")}, calling run {o2.get("statementCount")} (12 statements start in it)')
+        if g2.get('last') != 2 or (not shared_globals and 'last' in g1):
+            problems.append(f'globals written: calling run last={g2.get("last")!r}, defining run has last: {"last" in g1}')
+        if problems:
+            acc.violation('function-runs-under-the-options-of-its-defining-run', '; '.join(problems) + f' (globals shared: {shared_globals})', {'history': 'two-runs', 'shared': shared_globals})
+
+
 def run_random(spec, acc, api):
     bare_script, lib, rt_err = api
     base = spec['seed'] * 1000003 + spec['shard'] * 7919 + 23
@@ -330,6 +366,7 @@ def run_random(spec, acc, api):
         run_truthiness(acc, api)
         run_rest_arrays(acc, api)
         run_call_order(acc, api)
+        run_two_runs(acc, api)
     for i in range(spec['n']):
         rnd = random.Random(base + i)
         if rnd.random() < 0.8:
